@@ -71,7 +71,25 @@ pub fn arb_case(max_ops: usize, p_long: u32) -> impl Strategy<Value = Case> {
             )
                 .prop_map(|(a, n, b, busy, pool_sel, wallet_every)| {
                     let mid = if busy { Op::AddBusy { n, pool_sel, wallet_every } } else { Op::AddEmpty(n) };
-                    vec![Op::AddBlocks(a), mid, Op::AddBlocks(b)]
+                    if wallet_every % 2 == 1 {
+                        // second shape: one scanned block at the birthday (so a fully-scanned height exists),
+                        // receipts left in a gap, their spends right after, > 100 filler blocks, and ONE batch
+                        // from the first spending block to the tip: an out-of-order batch long enough for a
+                        // nullifier-tracking floor, whose early nullifiers are needed when the gap is scanned later
+                        let (ka, kb) = (a.len() as u64, b.len() as u64);
+                        let total = 1 + ka + kb + n as u64;
+                        let sel = (((1 + ka) << 32) + total - 1) / total;
+                        vec![
+                            Op::AddEmpty(1),
+                            Op::AddBlocks(a),
+                            Op::AddBlocks(b),
+                            mid,
+                            Op::Scan { sel: 0, len: 1 },
+                            Op::Scan { sel: sel as u32, len: (kb + n as u64) as u16 },
+                        ]
+                    } else {
+                        vec![Op::AddBlocks(a), mid, Op::AddBlocks(b)]
+                    }
                 })
                 .boxed()
         } else {
@@ -106,6 +124,9 @@ pub struct Flags {
     pub spend_before_receipt: bool,
     pub rewind_removed_wallet_tx: bool,
     pub big_batch: bool,
+    /// a batch > 102 blocks scanned above a gap, revealing (more than 100 blocks below its end) the spend of a
+    /// wallet note whose receipt lies in the unscanned gap
+    pub early_spend_in_big_out_of_order_batch: bool,
     pub truncate_refused: u32,
     pub truncations: u32,
     pub scans: u32,
@@ -226,6 +247,9 @@ impl Hist {
                             let note = &chain.notes[n];
                             if matches!(note.who, Who::Wallet(_)) && !self.ledger.scanned.contains(&note.block_id) && !(from..from + len).contains(&note.height) {
                                 self.flags.spend_before_receipt = true;
+                                if len > 102 && h + 101 < from + len && note.height < from {
+                                    self.flags.early_spend_in_big_out_of_order_batch = true;
+                                }
                             }
                         }
                     }
